@@ -2452,6 +2452,201 @@ impl log::Log for StderrLog {
     fn flush(&self) {}
 }
 
+
+// ---------------------------------------------------------------------------------------------
+// Real clusters across the chunk boundary (added after seeded changes C14-6 and C06-6): the
+// administrative device of `sim/admin.rs` (real AccessControl, OperationalCredentials, Basic
+// Information ... clusters) with two fabrics; a planted administrator of fabric 1 reads one
+// list-valued attribute, alone (reference) and behind 0-90 small filler reports that push it
+// across the end of a message, where the responder falls back to serving it element by element.
+// Oracle (metamorphic): the answer is complete and well-formed and the reassembled value of the
+// attribute does not depend on what precedes it.
+pub mod real {
+    use super::*;
+    use vh::sim::admin::{boot, new_controller, BootCfg, FabricKit, NetKind};
+    use vh::sim::fabric::install;
+    use vh::sim::kv::MemKv;
+    use vh::sim::net::Net;
+    use vh::sim::node::mk_crypto;
+
+    #[derive(Debug, Clone, Serialize, Deserialize)]
+    pub struct RealCase {
+        pub seed: u32,
+        pub target: u8,
+        pub fabric_filtered: bool,
+        pub fillers: u8,
+        pub filler_kind: u8,
+        /// additional ACL entries of the OTHER fabric
+        pub extra_acl: u8,
+    }
+
+    pub fn real_case() -> impl Strategy<Value = RealCase> {
+        (any::<u32>(), 0u8..7, any::<bool>(), 0u8..=90, 0u8..3, 0u8..3).prop_map(|(seed, target, fabric_filtered, fillers, filler_kind, extra_acl)| RealCase {
+            seed,
+            target,
+            fabric_filtered,
+            fillers,
+            filler_kind,
+            extra_acl,
+        })
+    }
+
+    const TARGETS: [(u16, u32, u32); 7] = [
+        (0, 0x1F, 0),      // AccessControl::ACL (fabric-sensitive entries)
+        (0, 0x3E, 0xFFF8), // OperationalCredentials::GeneratedCommandList (commands sharing a response)
+        (0, 0x3E, 0xFFF9), // OperationalCredentials::AcceptedCommandList
+        (0, 0x3E, 1),      // OperationalCredentials::Fabrics
+        (0, 0x3E, 0),      // OperationalCredentials::NOCs (fabric-sensitive)
+        (0, 0x1F, 0xFFFB), // AccessControl::AttributeList
+        (0, 0x30, 0xFFF8), // GeneralCommissioning::GeneratedCommandList
+    ];
+    const FILLERS: [(u16, u32, u32); 3] = [(0, 0x28, 5), (0, 0x28, 1), (0, 0x30, 0)];
+
+    /// The elements of `target` as the answer carries them: a whole-list report followed by
+    /// append reports. `Err` = a report of the target that is neither.
+    fn reassemble(out: &ReadOutcome, target: (u16, u32, u32)) -> Result<(Vec<String>, usize), String> {
+        let mut elems: Vec<String> = Vec::new();
+        let mut appended = 0usize;
+        let mut seen_whole = false;
+        for it in out.attrs.iter().filter(|it| it.path == Path::concrete(target.0, target.1, target.2)) {
+            match (&it.list_index, &it.body) {
+                (None, ReportBody::Data { value: Val::Array(items), .. }) => {
+                    if seen_whole {
+                        return Err("the list is reported whole twice".into());
+                    }
+                    seen_whole = true;
+                    elems.extend(items.iter().map(|(_, v)| format!("{v:?}")));
+                }
+                (Some(None), ReportBody::Data { value, .. }) => {
+                    if !seen_whole {
+                        return Err("an append report precedes the list it appends to".into());
+                    }
+                    if matches!(value, Val::Null) {
+                        return Err("an append report carries no value".into());
+                    }
+                    appended += 1;
+                    elems.push(format!("{value:?}"));
+                }
+                (li, body) => return Err(format!("unexpected report shape: list index {li:?}, body {body:?}")),
+            }
+        }
+        if !seen_whole {
+            return Err("the attribute is not reported".into());
+        }
+        Ok((elems, appended))
+    }
+
+    /// What [`run_real`] observed: the elements of the target read alone and behind the fillers.
+    pub struct RealObs {
+        pub reference: Vec<String>,
+        pub elems: Vec<String>,
+        pub appended: usize,
+        pub chunks: usize,
+        pub target: (u16, u32, u32),
+    }
+
+    pub fn check_real(case: &RealCase) -> Case {
+        match run_real(case) {
+            Err(c) => c,
+            Ok(o) => {
+                if o.elems != o.reference {
+                    let what = format!("{:#x}/{:#x} (fabric-filtered: {})", o.target.1, o.target.2, case.fabric_filtered);
+                    return Case::fail(
+                        "real:value-depends-on-position-in-the-answer",
+                        format!(
+                            "{what}: read alone it has {} element(s), behind {} filler reports ({} messages, {} appended element by element) it has {}; first difference at element {:?}: alone {:?}, chunked {:?}",
+                            o.reference.len(),
+                            case.fillers,
+                            o.chunks,
+                            o.appended,
+                            o.elems.len(),
+                            o.reference.iter().zip(o.elems.iter()).position(|(a, b)| a != b),
+                            o.reference.iter().zip(o.elems.iter()).find(|(a, b)| a != b).map(|(a, _)| a),
+                            o.reference.iter().zip(o.elems.iter()).find(|(a, b)| a != b).map(|(_, b)| b),
+                        ),
+                    );
+                }
+                Case::pass(o.appended > 0)
+                    .label(if o.appended > 0 { "served-element-by-element" } else if o.chunks > 1 { "chunked-but-whole" } else { "one-message" })
+                    .label(format!("target-{:#x}/{:#x}", o.target.1, o.target.2))
+            }
+        }
+    }
+
+    pub fn run_real(case: &RealCase) -> Result<RealObs, Case> {
+        vh::sim::reset_universe();
+        let net = Net::new(2);
+        let gen = mk_crypto(case.seed ^ 0x5eed);
+        let mut kits = Vec::new();
+        for (i, (fid, icac, admin)) in [(0xA1u64, false, 0x1001u64), (0xB2, true, 0x1002)].iter().enumerate() {
+            match FabricKit::new(&gen, *fid, *icac, *admin, 3 + i as u8) {
+                Ok(k) => kits.push(k),
+                Err(e) => return Err(Case::inconclusive(format!("fabric kit: {:?}", e.code()))),
+            }
+        }
+        let kv = MemKv::new();
+        let ctrls = vec![new_controller(case.seed, 0)];
+        let cfg = BootCfg { seed: case.seed, net: NetKind::Eth, resume: false, open_window_secs: None, sched: Sched::Fifo };
+        let target = TARGETS[case.target as usize % TARGETS.len()];
+        let filler = FILLERS[case.filler_kind as usize % FILLERS.len()];
+        let r = boot(&cfg, &kv, &net, &ctrls, |b| -> Result<RealObs, Case> {
+            for (i, k) in kits.iter().enumerate() {
+                let member = match k.device_member(&gen, 0x2000 + i as u64) {
+                    Ok(m) => m,
+                    Err(e) => return Err(Case::inconclusive(format!("device member: {:?}", e.code()))),
+                };
+                if let Err(e) = install(b.matter, &gen, &k.ca, &member, k.admin_node) {
+                    return Err(Case::inconclusive(format!("install: {:?}", e.code())));
+                }
+            }
+            let extra: Result<(), String> = b.matter.with_state(|st| {
+                let f = st.fabrics.fabric_mut(NonZeroU8::new(2).unwrap()).map_err(|e| format!("{:?}", e.code()))?;
+                for _ in 0..case.extra_acl {
+                    f.acl_add(AclEntry::new(None, Privilege::OPERATE, AuthMode::Case)).map_err(|e| format!("acl_add: {:?}", e.code()))?;
+                }
+                Ok(())
+            });
+            if let Err(e) = extra {
+                return Err(Case::inconclusive(e));
+            }
+            let sp = match b.plant_case(0, 1, kits[0].admin_node, 1, 0x2000) {
+                Ok(sp) => sp,
+                Err(e) => return Err(Case::inconclusive(e)),
+            };
+            let what = format!("{:#x}/{:#x} (fabric-filtered: {})", target.1, target.2, case.fabric_filtered);
+            let alone = b.read(0, sp.ctrl_sid, &[target], case.fabric_filtered);
+            if alone.error.is_some() || alone.status.is_some() {
+                return Err(Case::inconclusive(format!("reference read of {what} failed: {:?} {:?}", alone.error, alone.status)));
+            }
+            let reference = match reassemble(&alone, target) {
+                Ok((e, _)) => e,
+                Err(e) => return Err(Case::fail("real:reference-read-malformed", format!("{what} read alone: {e}"))),
+            };
+            let mut paths = vec![filler; case.fillers as usize];
+            paths.push(target);
+            let out = b.read(0, sp.ctrl_sid, &paths, case.fabric_filtered);
+            if let Some(e) = &out.error {
+                return Err(Case::fail("real:answer-does-not-complete", format!("{what} behind {} reports of {:#x}/{:#x}: {e} after {} message(s)", case.fillers, filler.1, filler.2, out.chunks)));
+            }
+            if let Some(s) = out.status {
+                return Err(Case::fail("real:status-instead-of-report", format!("{what} behind {} filler reports: StatusResponse {s:#x}", case.fillers)));
+            }
+            let got_fillers = out.attrs.iter().filter(|it| it.path == Path::concrete(filler.0, filler.1, filler.2)).count();
+            if got_fillers != case.fillers as usize {
+                return Err(Case::fail("real:filler-count", format!("{} reports requested for {:#x}/{:#x}, {got_fillers} received", case.fillers, filler.1, filler.2)));
+            }
+            match reassemble(&out, target) {
+                Err(e) => Err(Case::fail("real:malformed-list-report", format!("{what} behind {} filler reports ({} messages): {e}", case.fillers, out.chunks))),
+                Ok((elems, appended)) => Ok(RealObs { reference, elems, appended, chunks: out.chunks, target }),
+            }
+        });
+        match r {
+            Ok(c) => c,
+            Err(e) => Err(Case::inconclusive(format!("boot: {e}"))),
+        }
+    }
+}
+
 fn main() {
     let _ = log::set_logger(&StderrLog);
     if std::env::var("VH_LOG").is_ok() {
@@ -2493,5 +2688,7 @@ fn main() {
     run.prop("subscribe", n_sub, subscribe_case, check);
     run.prop("report", n_rep, report_case, check);
     run.prop("oversize", n_over, oversize_case, check);
+    let n_real = run.cases(1_500, 40_000);
+    run.prop("real-clusters", n_real, real::real_case, real::check_real);
     run.finish();
 }
